@@ -19,8 +19,8 @@ def describe(tier):
                 'message length must raise ValueError; LubyRackoffPRP constructor contracts. non-trivial = input other than all-zero.'
                 % (nmax, 20),
         'bounds': 'n<=%d exhaustive over inputs; 3 keys' % nmax,
-        'assumptions': ['n = 1 is outside the property (it starts at n = 2)', 'keys are DRBG values (3 per width)'],
-        'must_be_nonzero': ['ffx-exhaustive-widths', 'ffx-wide', 'fpeprp-contract', 'lr-2byte-exhaustive', 'lr-contract-refused'],
+        'assumptions': ['n = 1 is outside the property (it starts at n = 2)', 'non-default constructions: even round counts {2,4,6,8,12,16} x {sha1,sha256,md5,sha512}, all inputs of n = 2..8 (10); an odd round count is outside (upstream pyffx construction: with unequal halves it is its own inverse only for an even number of rounds; nothing in the library uses one)', 'keys are DRBG values (3 per width)'],
+        'must_be_nonzero': ['ffx-exhaustive-widths', 'ffx-nondefault-construction', 'ffx-wide', 'fpeprp-contract', 'lr-2byte-exhaustive', 'lr-contract-refused'],
     }
 
 
@@ -32,6 +32,9 @@ def units(tier, seed):
             us.append(('ffx/%d/%d' % (n, ki), {'kind': 'ffx', 'n': n, 'ki': ki}))
     for n in WIDE:
         us.append(('ffxw/%d' % n, {'kind': 'ffxw', 'n': n, 'count': 20 if n < 2000 else 6}))
+    for rounds in (2, 4, 6, 8, 12, 16):
+        for dg in ('sha1', 'sha256', 'md5', 'sha512'):
+            us.append(('ffxcfg/%d/%s' % (rounds, dg), {'kind': 'ffx', 'n': None, 'ki': 1, 'rounds': rounds, 'digest': dg, 'ns': list(range(2, 9 if tier == 'quick' else 11))}))
     us.append(('fpeprp', {'kind': 'fpeprp'}))
     for q in range(4):
         us.append(('lr2/%d' % q, {'kind': 'lr2', 'q': q}))
@@ -49,14 +52,21 @@ def run_unit(p, tier, seed):
     r = core.Result()
     kind = p['kind']
     if kind == 'ffx':
-        n, ki = p['n'], p['ki']
+      import hashlib
+      for n in (p.get('ns') or [p['n']]):
+        ki = p['ki']
         g = det.rng(seed, 'c15-ffx', n, ki)
         key = g.randbytes(16 + 8 * ki)
-        f = BitwiseFFX()
+        # non-default constructions: another (even) number of rounds, another digest
+        f = BitwiseFFX(rounds=p['rounds'], digest_mod=getattr(hashlib, p['digest'])) if p.get('rounds') else BitwiseFFX()
         image = set()
         r.count('ffx-exhaustive-widths')
+        if p.get('rounds'):
+            r.count('ffx-nondefault-construction')
         for x in range(1 << n):
             case = {'n': n, 'key_index': ki, 'x': x}
+            if p.get('rounds'):
+                case.update(rounds=p['rounds'], digest=p['digest'])
             core.note_case(case)
             r['evaluations'] += 1
             r['transitions'] += 2
@@ -302,7 +312,7 @@ def run_unit(p, tier, seed):
 
 def replay(case, seed):
     if 'key_index' in case and 'n' in case:
-        return run_unit({'kind': 'ffx', 'n': case['n'], 'ki': case['key_index']}, 'quick', seed)['violations']
+        return run_unit({'kind': 'ffx', 'n': case['n'], 'ki': case['key_index'], 'rounds': case.get('rounds'), 'digest': case.get('digest')}, 'quick', seed)['violations']
     if 'n' in case and 'x' in case:
         return run_unit({'kind': 'ffxw', 'n': case['n'], 'count': 20}, 'quick', seed)['violations']
     if 'declared' in case or case.get('n') == 6 or case.get('shared_key'):
